@@ -180,4 +180,21 @@ def c19(tier, seed):
                 assumptions=ASSUME_CLIENT, exhaustive=True)
 
 
-CHECKS = {'C04': c04, 'C09': c09, 'C19': c19, 'C10': c10, 'C01': c01, 'C02': c02, 'C03': c03, 'C05': c05, 'C06': c06, 'C12': c12}
+
+def c08(tier, seed):
+    t = 'quick' if tier == 'quick' else 'thorough'
+    return dict(stages=[Stage('client', mc=('ClientMC', 'Client_%s.cfg' % t), emit=('ClientMC', 'Client_%s_emit.cfg' % t),
+                              driver='client', trace=('ClientTrace', 'ClientTrace.cfg'),
+                              deviations={'ServerOrderResults': 'ClientTrace_dev_ServerOrderResults.cfg'},
+                              nontrivial=lambda tr: len(tr['ev']) >= 2)],
+                rule='the server as an adversary: for batches of calls (+ notifications) EVERY response array of length 0..4 over '
+                     'the element alphabet (own ids in any order / repeated / missing, the id as a string, a foreign id, null ids, '
+                     'results and errors, malformed elements), batch-level error objects, non-JSON and scalar bodies; for single '
+                     'calls every id relation x body; x strict on/off; every scenario runs on the sync AND the async client; '
+                     'non-trivial = an accepted batch response whose positional order was observed',
+                assumptions=ASSUME_CLIENT + ['non-strict mode and null-id elements inside a response array are explicit '
+                                             'don\'t-care regions for the positional attribution (DESIGN 3.3)'],
+                exhaustive=True)
+
+
+CHECKS = {'C04': c04, 'C08': c08, 'C09': c09, 'C19': c19, 'C10': c10, 'C01': c01, 'C02': c02, 'C03': c03, 'C05': c05, 'C06': c06, 'C12': c12}
